@@ -59,6 +59,16 @@ INSTANCES = {
               menu=[dict(tasks=[(1, [], 0, 0), (2, [], 0, 0), (3, [], 0, 0)], climit=0, max_fails=-1),
                     dict(tasks=[(1, [], 1, 5)], climit=0, max_fails=-1, tlimit=1)],
               losses=0, cancels=1, fails=0, launch_fails=0, pf_reserve=0, pf_max=2, modes=["eager"], tier="thorough"),
+    # a worker that arrives late: pre-sent tasks on the first worker are redirected to it; loss, cancel, higher-priority arrival
+    "N": dict(workers=[1, 1], late=[2], classes=[1],
+              menu=[dict(tasks=[(1, [], 0, 0), (2, [], 0, 0), (3, [], 0, 0)], climit=1, max_fails=-1),
+                    dict(tasks=[(1, [], 0, 4)], climit=1, max_fails=-1)],
+              losses=1, cancels=1, fails=0, launch_fails=0, pf_reserve=0, pf_max=2, modes=["eager"], tier="thorough"),
+    # a 2-node task that becomes placeable only when the second worker of its group arrives
+    "N2": dict(workers=[1, 1, 1], late=[3], groups=["g1", "g2", "g1"], classes=[1, ("mn", 2)],
+               menu=[dict(tasks=[(1, [], 0, 0), (2, [], 0, 0)], climit=1, max_fails=-1),
+                     dict(tasks=[(1, [], 1, 1)], climit=1, max_fails=-1)],
+               losses=1, cancels=0, fails=0, launch_fails=0, pf_reserve=0, pf_max=1, modes=["eager"], tier="quick"),
     # restart from the journal at every crash point (journal kept as history variable, so the instance is tiny):
     # dependency + job failure limit 0 + crash limit 2, two losses, a failure, a cancel
     "J": dict(workers=[1, 1], classes=[1], journaling=True,
@@ -136,13 +146,13 @@ def instance_tla(name, inst):
     ops = " @@ ".join(f"({j} :> {mf})" for j, mf in sorted(op.items())) or "<<>>"
     life = inst.get("life") or [-1] * len(inst["workers"])
     ls = " @@ ".join(f"({i + 1} :> {l})" for i, l in enumerate(life))
-    return (f"{name}_Workers == {ws}\n{name}_Life == {ls}\n{name}_Groups == {gs}\n{name}_Classes == <<{cls}>>\n{name}_Open == {ops}\n{name}_Menu == << " + ",\n             ".join(menu) + " >>\n")
+    return (f"{name}_Late == {tla_set(inst.get('late') or [])}\n{name}_Workers == {ws}\n{name}_Life == {ls}\n{name}_Groups == {gs}\n{name}_Classes == <<{cls}>>\n{name}_Open == {ops}\n{name}_Menu == << " + ",\n             ".join(menu) + " >>\n")
 
 
 def cfg_text(name, inst, mode, spec="Spec", extra_inv=()):
     inv = INVARIANTS + (EAGER_ONLY if mode == "eager" else []) + (JOURNAL_INV if inst.get("journaling") else []) + list(extra_inv)
     lines = [f"SPECIFICATION {spec}", "CONSTANTS",
-             f"  WorkerCpus <- {name}_Workers", f"  WorkerGroup <- {name}_Groups", f"  WorkerLife <- {name}_Life", f"  MaxTicks = {inst.get('ticks', 0)}", f"  Menu <- {name}_Menu", f"  OpenJobs <- {name}_Open", f"  Classes <- {name}_Classes",
+             f"  WorkerCpus <- {name}_Workers", f"  LateWorkers <- {name}_Late", f"  WorkerGroup <- {name}_Groups", f"  WorkerLife <- {name}_Life", f"  MaxTicks = {inst.get('ticks', 0)}", f"  Menu <- {name}_Menu", f"  OpenJobs <- {name}_Open", f"  Classes <- {name}_Classes",
              f"  MaxLosses = {inst['losses']}", f"  MaxCancels = {inst['cancels']}", f"  MaxFails = {inst['fails']}",
              f"  MaxLaunchFails = {inst['launch_fails']}", f"  PfReserve = {inst['pf_reserve']}", f"  PfMax = {inst['pf_max']}",
              f"  Eager = {'TRUE' if mode == 'eager' else 'FALSE'}", f"  Journaling = {'TRUE' if inst.get('journaling') else 'FALSE'}",
@@ -187,7 +197,8 @@ def profile_of(name):
     return {
         "name": "model" + name, "journal": True, "manual_flush": False, "reserve": inst["pf_reserve"], "pf_max": inst["pf_max"],
         "worker_kinds": [{"cpus": c, "gpus": 0, "group": g, "time_limit": l} for c, g, l in kinds],
-        "initial_workers": [kinds.index(cg) for cg in zip(inst["workers"], groups, life)], "max_connects": 0,
+        "initial_workers": [kinds.index(cg) for i, cg in enumerate(zip(inst["workers"], groups, life)) if i + 1 not in (inst.get("late") or [])],
+        "max_connects": len(inst.get("late") or []),
         "classes": [({"variants": [{"cpus": 0, "gpus": 0, "min_time": 0}], "n_nodes": c[1]} if isinstance(c, tuple) and c[0] == "mn"
                      else {"variants": [{"cpus": c[1] * 10000, "gpus": 0, "min_time": c[2]}], "n_nodes": 0} if isinstance(c, tuple) and c[0] == "time"
                      else {"variants": [{"cpus": a * 10000, "gpus": 0, "min_time": 0} for a in c[1]], "n_nodes": 0} if isinstance(c, tuple)
@@ -199,6 +210,15 @@ def profile_of(name):
         "max_submits": len(inst["menu"]), "opens": len(inst.get("open_jobs") or {}), "losses": inst["losses"], "cancels": inst["cancels"], "fails": inst["fails"],
         "launch_fails": inst["launch_fails"], "stops": 0, "ticks": inst.get("ticks", 0), "forgets": 0, "drain": True, "prunes": 0, "queue_events": 0,
     }
+
+
+def late_kinds(name):
+    """model worker id -> index of its kind in the harness profile, for the workers that arrive late"""
+    inst = INSTANCES[name]
+    groups = inst.get("groups") or [""] * len(inst["workers"])
+    life = [max(l, 0) for l in (inst.get("life") or [-1] * len(inst["workers"]))]
+    kinds = sorted(set(zip(inst["workers"], groups, life)))
+    return {i + 1: kinds.index(cg) for i, cg in enumerate(zip(inst["workers"], groups, life)) if i + 1 in (inst.get("late") or [])}
 
 
 def spec_hash(cfg):
@@ -274,9 +294,10 @@ def parse_act(txt):
     return d
 
 
-def translate(acts):
+def translate(acts, name=None):
     """model actions -> harness choices; model job ids -> real job ids (assigned in submission order)."""
     jobmap = {}
+    lk = late_kinds(name) if name else {}
     out = []
     for a in acts:
         c = a["c"]
@@ -288,6 +309,8 @@ def translate(acts):
         elif c == "Cancel":
             if a["job"] in jobmap:
                 out.append({"c": "Cancel", "job": jobmap[a["job"]]})
+        elif c == "Connect":
+            out.append({"c": "Connect", "kind": lk[a["w"]]})
         elif c in ("Exit", "FailLaunch"):
             j, t = divmod(a["t"], 1000)
             if j not in jobmap:
@@ -320,7 +343,7 @@ def behaviours(name, num, depth, seed, workdir, with_sigs=False):
     for f in sorted(os.listdir(tdir)):
         txt = open(os.path.join(tdir, f)).read()
         acts = [parse_act(m) for m in LAST_ACT.findall(txt)]
-        ch = translate(acts)
+        ch = translate(acts, name)
         if ch:
             if with_sigs:
                 sigs = [" ".join(m.split()) for m in SIG.findall(txt)]
